@@ -14,6 +14,7 @@ import (
 	"github.com/aldas/go-modbus-client/packet"
 
 	"verif/internal/cat"
+	"verif/internal/device"
 	"verif/internal/harness"
 	"verif/internal/spec"
 	"verif/internal/xport"
@@ -59,6 +60,9 @@ type Scenario struct {
 	NotConnected bool `json:"not_connected,omitempty"`
 	NilRequest   bool `json:"nil_request,omitempty"`
 	Hooks        bool `json:"hooks,omitempty"`
+	// Prior: a request call made on the same client before the one under test (state carried between calls).
+	// Kind: "success" (whole reply), "stall" (nothing arrives: ends by the read timeout), "eof", "ioerr", "partial-stall" (half the reply, then nothing)
+	Prior string `json:"prior,omitempty"`
 	// CustomParse: network clients only: build with NewClient and a wrapped ParseResponseFunc so parser entry is observable
 	CustomParse bool `json:"custom_parse,omitempty"`
 }
@@ -93,12 +97,14 @@ func (r *Recorder) BeforeParse(b []byte) {
 
 // Outcome is everything observable about the call.
 type Outcome struct {
-	Request   packet.Request
-	ReqBytes  []byte
-	Resp      packet.Response
-	Err       error
-	Panic     interface{}
-	Hung      bool
+	Request  packet.Request
+	ReqBytes []byte
+	Resp     packet.Response
+	Err      error
+	Panic    interface{}
+	Hung     bool
+	// PriorHung: the earlier call on the same client (Scenario.Prior) did not return
+	PriorHung bool
 	Elapsed   time.Duration
 	Writes    [][]byte
 	Reads     []xport.ReadLog
@@ -200,6 +206,37 @@ func Run(sc Scenario) Outcome {
 			}
 		}
 		do = c.Do
+	}
+	if sc.Prior != "" && req != nil && !sc.NotConnected {
+		// the earlier call uses its own script on the same transport object and a background context
+		dn := device.New(77)
+		full := dn.Answer(f, out.ReqBytes)
+		var pev []xport.Event
+		switch sc.Prior {
+		case "success":
+			pev = []xport.Event{{Kind: "data", N: len(full)}}
+		case "stall":
+		case "partial-stall":
+			pev = []xport.Event{{Kind: "data", N: len(full) / 2}}
+		case "eof":
+			pev = []xport.Event{{Kind: "data", N: len(full) / 2}, {Kind: "eof", N: 0}}
+		case "ioerr":
+			pev = []xport.Event{{Kind: "data", N: len(full) / 2}, {Kind: "ioerr", N: 0}}
+		}
+		script.Reset(full, pev, false)
+		pch := make(chan struct{})
+		go func() {
+			defer func() { _ = recover(); close(pch) }()
+			_, _ = do(context.Background(), req)
+		}()
+		select {
+		case <-pch:
+		case <-time.After(HangCeiling):
+			out.Hung = true
+			out.PriorHung = true
+			return out
+		}
+		script.Reset(append([]byte(nil), sc.Stream...), append([]xport.Event(nil), sc.Events...), sc.WriteErr)
 	}
 	if sc.CancelBefore {
 		cancel()
